@@ -183,9 +183,17 @@ def _earth(ell):
     """The Earth object for the ellipsoid: built directly, or (every other ellipsoid, by its
     flattening) an object that already served another ellipsoid and was then switched with the
     documented set() - the two ways of selecting the reference ellipsoid must agree."""
-    if int(ell._f * 1e9) % 2 == 0:
+    k = int(ell._f * 1e9) % 4
+    if k in (0, 2):
         return Earth(ell)
-    e = Earth(Ellipsoid(6371000.0, 0.0, 7.292115e-5))
+    if k == 1:
+        prior = Ellipsoid(6371000.0, 0.0, 7.292115e-5)
+    else:
+        # the same figure with another rotation, or the same equator with another flattening:
+        # only one of the three parameters differs from the ellipsoid switched to
+        prior = (Ellipsoid(ell._a, ell._f, ell._omega * 1.5) if int(ell._f * 1e10) % 2
+                 else Ellipsoid(ell._a, ell._f * 0.5 + 1e-4, ell._omega))
+    e = Earth(prior)
     e.rho(10.0), e.rp(10.0), e.rm(10.0), e.linear_velocity(10.0), e.rho_sinphi(10.0, 100.0)
     e.set(ell)
     return e
